@@ -32,12 +32,12 @@ func init() {
 	ev.Register(&ev.Check{
 		ID:             "C11",
 		Level:          "model_checking",
-		Rule:           "(a) histories: ALL sequences of <= 3 (thorough 4) operations from a 57-operation alphabet (8 schema methods x {plain schema, schema with types/allOf and an enum rule object that is itself in the pool, invalid schema}, 6 on a lexically broken schema, 4 on a broken enum rule, Check/Len on 3 documents and on an embedded document with trailing text, Validate and the NextLexeme stream of LIVE document objects that have only been through the rewinding Len/Check, 4 enum-rule methods, 4 regex-type methods) over one pool of live objects, plus each operation repeated 12 times and 3 round-robins of the whole alphabet; every result (verdict, code, position, AST, example bytes, used-type list, enum values) must equal the result on fresh objects, and every value handed to the caller must still equal its snapshot at the end of the history; (c) the same with every single sync.Pool answer deviated (fresh object / oldest pooled object) for histories <= 2; (d) interleaved streams: for every pair of 6 small documents (the first also as an embedded document with trailing text) ALL merges of the two NextLexeme call sequences: each document must deliver exactly the events it delivers when read alone; (b) map order: for every scenario of a corpus (type-reference / allOf / additionalProperties / key-shortcut families, type graphs, multi-shortcut objects) ALL single deviations (descending, rotations) of every dynamic range-over-map instance (thorough: pairs) - the library is built through an overlay that turns every `for k := range map` into iteration over an explicitly ordered key list - must leave all public results unchanged. states = distinct (history prefix) pool states, transitions = operations executed, traces_validated_against_impl = histories/scenario runs executed on the real library.",
+		Rule:           "(a) histories: ALL sequences of <= 3 (thorough 4) operations from a 57-operation alphabet (8 schema methods x {plain schema, schema with types/allOf and an enum rule object that is itself in the pool, invalid schema}, 6 on a lexically broken schema, 4 on a broken enum rule, Check/Len on 3 documents and on an embedded document with trailing text, Validate and the NextLexeme stream of LIVE document objects that have only been through the rewinding Len/Check, 4 enum-rule methods, 4 regex-type methods) over one pool of live objects, plus each operation repeated 12 times and 3 round-robins of the whole alphabet; every result (verdict, code, position, AST, example bytes, used-type list, enum values) must equal the result on fresh objects, and every value handed to the caller must still equal its snapshot at the end of the history; (c) a second, smaller alphabet (14 operations on two schemas sharing ONE added type object through allOf lists, and on that object) one level deeper; the same with every single sync.Pool answer deviated (fresh object / oldest pooled object) for histories <= 2; (d) interleaved streams: for every pair of 6 small documents (the first also as an embedded document with trailing text) ALL merges of the two NextLexeme call sequences: each document must deliver exactly the events it delivers when read alone; (b) map order: for every scenario of a corpus (type-reference / allOf / additionalProperties / key-shortcut families, type graphs, multi-shortcut objects) ALL single deviations (descending, rotations) of every dynamic range-over-map instance (thorough: pairs) - the library is built through an overlay that turns every `for k := range map` into iteration over an explicitly ordered key list - must leave all public results unchanged. states = distinct (history prefix) pool states, transitions = operations executed, traces_validated_against_impl = histories/scenario runs executed on the real library.",
 		Workers:        func(string) int { return 16 },
 		Run:            run,
 		Replay:         replay,
 		Finish:         finish,
-		QuickBudget:    85 * time.Second,
+		QuickBudget:    170 * time.Second,
 		ThoroughBudget: 14 * time.Minute,
 		Assumptions: []string{
 			"message text is not compared (it may embed map-ordered key lists and pointer-derived names); verdict, code, position and structured values are",
@@ -60,10 +60,12 @@ type pool struct {
 	consumed   []bool     // D[k] has been read through NextLexeme/Validate since its last rewinding Len/Check
 	E, E2      *enum.Enum // E is ALSO the rule @lvl of schema U; E2 is lexically broken
 	R          *regex.Schema
+	// S1 and S2 are different schemas to which the SAME type object B was added
+	S1, S2, B *jschema.Schema
 }
 
 const brokenText = "{\n  \"a\": 1,\n  \"b\": tru\n}"
-const enumText = "[\n  // small\n  1, // one\n  // large\n  2,\n  \"two\"\n]"
+const enumText = "[\n  // small\n  1, // one\n  // large\n  2,\n  \"two\",\n  \"1.5\"\n]"
 
 func newPool() *pool {
 	p := &pool{}
@@ -84,6 +86,13 @@ func newPool() *pool {
 	p.D = append(p.D, newDoc(4))
 	p.consumed = make([]bool, len(p.D))
 	p.R = regex.New("@r", "/^ab+c$/")
+	p.B = jschema.New("@base", "{\n  \"id\": 1\n}")
+	p.S1 = jschema.New("s1", "{ // {allOf: [\"@base\", \"@left\"]}\n}")
+	p.S1.AddType("@base", p.B)
+	p.S1.AddType("@left", jschema.New("@left", "{\n  \"name\": \"x\"\n}"))
+	p.S2 = jschema.New("s2", "{ // {allOf: [\"@base\", \"@right\"]}\n  \"own\": true // {optional: true}\n}")
+	p.S2.AddType("@base", p.B)
+	p.S2.AddType("@right", jschema.New("@right", "{\n  \"size\": 1\n}"))
 	return p
 }
 
@@ -275,6 +284,32 @@ func alphabet() []opT {
 	return ops
 }
 
+// sharedAlphabet: operations on two schemas sharing one added type object, and on that object.
+func sharedAlphabet() []opT {
+	val := func(name string, get func(p *pool) *jschema.Schema, doc string) opT {
+		return opT{fmt.Sprintf("%s.Validate(%s)", name, doc), func(p *pool) (string, *held) {
+			return errStr(get(p).Validate(json.New("d", doc))), nil
+		}}
+	}
+	s1 := func(p *pool) *jschema.Schema { return p.S1 }
+	s2 := func(p *pool) *jschema.Schema { return p.S2 }
+	b := func(p *pool) *jschema.Schema { return p.B }
+	ex := func(name string, get func(p *pool) *jschema.Schema) opT {
+		return opT{name + ".Example", func(p *pool) (string, *held) {
+			x, err := get(p).Example()
+			return string(x) + " " + errStr(err), &held{render: func() string { return string(x) }}
+		}}
+	}
+	return []opT{
+		{"S1.Check", func(p *pool) (string, *held) { return errStr(p.S1.Check()), nil }},
+		val("S1", s1, `{"id":7,"name":"x"}`), val("S1", s1, `{"id":7}`), val("S1", s1, `{"id":7,"size":1}`), ex("S1", s1),
+		{"S2.Check", func(p *pool) (string, *held) { return errStr(p.S2.Check()), nil }},
+		val("S2", s2, `{"id":7,"size":2}`), val("S2", s2, `{"id":7}`), val("S2", s2, `{"id":7,"name":"x"}`), ex("S2", s2),
+		{"B.Check", func(p *pool) (string, *held) { return errStr(p.B.Check()), nil }},
+		val("B", b, `{"id":7}`), val("B", b, `{}`), ex("B", b),
+	}
+}
+
 // runHistory executes the history on a fresh pool; returns the first deviation.
 func runHistory(ops []opT, fresh []string, hist []int) string {
 	p := newPool()
@@ -323,17 +358,22 @@ func names(ops []opT, hist []int) []string {
 }
 
 func histories(c *ev.Ctx) {
-	ops := alphabet()
-	fresh := make([]string, len(ops))
-	for i := range ops {
-		shim.RunEnv(nil, func() { fresh[i], _ = ops[i].run(newPool()) })
-	}
-	c.Bound("operations", len(ops))
 	depth := 3
 	if c.Thorough() {
 		depth = 4
 	}
-	c.Bound("history_depth", depth)
+	historiesOver(c, alphabet(), depth, "")
+	// two schemas that share one added type object: a small alphabet, one level deeper
+	historiesOver(c, sharedAlphabet(), depth+1, "shared_types_")
+}
+
+func historiesOver(c *ev.Ctx, ops []opT, depth int, tag string) {
+	fresh := make([]string, len(ops))
+	for i := range ops {
+		shim.RunEnv(nil, func() { fresh[i], _ = ops[i].run(newPool()) })
+	}
+	c.Bound(tag+"operations", len(ops))
+	c.Bound(tag+"history_depth", depth)
 	seenPrefix := map[string]bool{}
 	eval := func(hist []int, withEnv bool) {
 		var d string
@@ -341,7 +381,7 @@ func histories(c *ev.Ctx) {
 		c.Inc("traces_validated_against_impl")
 		c.Add("transitions", int64(len(hist)))
 		c.Eval(len(hist) > 1)
-		k := fmt.Sprint(hist)
+		k := tag + fmt.Sprint(hist)
 		if !seenPrefix[k] {
 			seenPrefix[k] = true
 			c.Inc("states")
@@ -643,7 +683,7 @@ func replay(raw stdjson.RawMessage) (bool, string) {
 		return d != "", d
 	}
 	if cs.Kind == "history" {
-		ops := alphabet()
+		ops := append(alphabet(), sharedAlphabet()...)
 		fresh := make([]string, len(ops))
 		for i := range ops {
 			shim.RunEnv(nil, func() { fresh[i], _ = ops[i].run(newPool()) })
